@@ -48,6 +48,11 @@ def templates():
     T["measured.D"] = lambda o, p, q, x, y: (o.MeasureHomodyne(0.3) | q[1], o.Dgate(q[1].par, 0.0) | q[0])
     T["homodyne.select"] = lambda o, p, q, x, y: (o.S2gate(0.4) | (q[0], q[1]), o.MeasureHomodyne(0.2, select=0.3) | q[1])
     T["heterodyne.select"] = lambda o, p, q, x, y: (o.S2gate(0.4) | (q[0], q[1]), o.MeasureHeterodyne(select=0.1 + 0.2j) | q[1])
+    T["homodyne.select0"] = lambda o, p, q, x, y: (o.S2gate(0.4) | (q[0], q[1]), o.MeasureHomodyne(0.2, select=0) | q[1])
+    T["MeasureP.select0.0"] = lambda o, p, q, x, y: (o.S2gate(0.4) | (q[0], q[1]), o.MeasureHomodyne(np.pi / 2, select=0.0) | q[0])
+    T["heterodyne.select0"] = lambda o, p, q, x, y: (o.S2gate(0.4) | (q[0], q[1]), o.MeasureHeterodyne(select=0j) | q[1])
+    T["zero.params"] = lambda o, p, q, x, y: (o.Sgate(0.0, 0.3) | q[0], o.BSgate(0.0, 0.0) | (q[0], q[1]), o.Dgate(0.0) | q[1], o.Rgate(0) | q[0])
+    T["negative.params"] = lambda o, p, q, x, y: (o.Sgate(-0.3, -0.2) | q[0], o.BSgate(-0.4, -1.0) | (q[0], q[1]), o.Zgate(-0.5) | q[1])
     T["sequence"] = lambda o, p, q, x, y: (o.Sgate(0.2) | q[0], o.BSgate(x, y) | (q[0], q[1]), o.Rgate(0.1).H | q[1], o.LossChannel(0.9) | q[0])
     return T
 
@@ -79,6 +84,8 @@ def h_roundtrip(g, name, fmt):
     g.fact("same number of commands", len(loaded.circuit) == len(prog.circuit), detail=text)
     g.fact("same operations on the same modes", [(a, b) for a, b, _, _, _ in structure(loaded)] == [(a, b) for a, b, _, _, _ in structure(prog)],
            detail=text)
+    g.fact("post-selection survives (a selected measurement stays selected)",
+           [c[3] is None for c in structure(loaded)] == [c[3] is None for c in structure(prog)], detail=text)
     # same action: free parameters bound to shared symbols, shared measurement outcomes, arbitrary prior state
     vx, vy = g.real("x"), g.real("y")
     outcomes = []
